@@ -103,6 +103,13 @@ pub fn check_content(content: &Content, label: &str, report: &mut Report, stats:
     }
 }
 
+/// The same combos with the same multiset of weights, dealt out differently (rotated by one combo).
+fn redistributed(c: &Content) -> Content {
+    let keys: Vec<Pid> = c.keys().cloned().collect();
+    let weights: Vec<f32> = c.values().cloned().collect();
+    keys.iter().enumerate().map(|(i, k)| (*k, weights[(i + 1) % weights.len()])).collect()
+}
+
 fn short(c: &Content) -> String {
     if c.len() <= 14 {
         content_text(c)
@@ -187,6 +194,12 @@ pub fn run(ctx: &Ctx) -> Report {
                     }
                     check_content(&content, &label, report, stats);
                     report.note_distinct(mix2(mix2(crate::util::hash_str(&label), index), content_hash(&background)));
+                    if index % 5 == 2 && content.len() >= 2 {
+                        // straight afterwards on this thread: same combos, same weights, dealt out differently
+                        let again = redistributed(&content);
+                        check_content(&again, &label, report, stats);
+                        report.count("follow_ups_with_redistributed_weights", 1);
+                    }
                 };
                 if *hi > *lo {
                     for index in *lo..*hi {
@@ -241,6 +254,11 @@ pub fn run(ctx: &Ctx) -> Report {
                     };
                     check_content(&content, "random", report, stats);
                     report.note_distinct(content_hash(&content));
+                    if content.len() >= 2 {
+                        let again = redistributed(&content);
+                        check_content(&again, "random", report, stats);
+                        report.count("follow_ups_with_redistributed_weights", 1);
+                    }
                 }
                 report.count("random_whole_ranges", *n as u64);
             }
